@@ -329,7 +329,9 @@ func judge19(r *fmtRun) *verdict {
 		sig := "reparse-error"
 		if el, ok := r.outErr.(scanner.ErrorList); ok && len(el) > 0 {
 			pl := placeAt(r.out1, nil, nil, el[0].Pos.Offset, 0)
-			sig += ":" + pl.left + "|" + pl.right
+			// the token in front of the place the parser gives up at names the construct that was misprinted
+			sig += ":after-" + pl.left
+			return &verdict{"viol", sig, fmt.Sprintf("formatted output does not parse (at %s|%s): %v\n--- input\n%s--- output\n%s", pl.left, pl.right, r.outErr, r.src, r.out1)}
 		}
 		return &verdict{"viol", sig, fmt.Sprintf("formatted output does not parse: %v\n--- input\n%s--- output\n%s", r.outErr, r.src, r.out1)}
 	}
